@@ -88,4 +88,6 @@ def run(tier, seed):
     # the same property against the executable model of the host interface (absolute oracle, Tier-S programs)
     import hostmodel
     nviol += hostmodel.check("C02", "save", tier, seed)
+    # ... and with several flows: saves taken while flows wait in the background, which are looked at after the load
+    nviol += hostmodel.check("C02", "saveflows", tier, seed)
     return nviol
